@@ -244,6 +244,27 @@ def eng_multi(pid, tier, wd, known, replay=None):
                         [g for g in got if g not in want][:4] or got[:4], [w for w in want if w not in got][:4] or want[:4]))
                 if gen_ok(i, "multi") and (i, "multi") in build_err and (i, "app") not in build_err and (i, "soloc") not in build_err:
                     why.append("the generated file of the package with several injectors does not compile (each injector alone does): " + build_err[(i, "multi")][:400])
+                if gen_ok(i, "multi"):
+                    # one value variable per value expression of the sources: an expression in a named set is shared by the
+                    # injectors that use it, one written inside wire.Build (or an inline set there) belongs to its injector
+                    def used_values(o):
+                        seen, direct, _ = spec.needed(p["tree"], p["given"], o)
+                        return {direct[t][1]["id"] for t in seen if t in direct and direct[t][0] == "val"}
+
+                    def located(x, shared, acc):
+                        for v in x["values"]:
+                            acc[v["id"]] = shared
+                        for y in x["imports"]:
+                            located(y, shared or not y.get("inline"), acc)
+                    loc = {}
+                    located(p["tree"], False, loc)
+                    outs_ = [p["out"], p["out"]] + ([r.out_c] if has_c else [])
+                    per_inj = [used_values(o) for o in outs_]
+                    want_vars = sum(len([v for v in u if not loc.get(v)]) for u in per_inj) + len({v for u in per_inj for v in u if loc.get(v)})
+                    txt = open(os.path.join(root, "c%d" % i, "multi", "wire_gen.go")).read()
+                    got_vars = len(re.findall(r"(?m)^\t?(?:var )?_wire\w*Value\w* += ", txt))
+                    if got_vars != want_vars:
+                        why.append("the generated file declares %d value variables; the sources hold %d value expressions in use (each is to be evaluated once)" % (got_vars, want_vars))
                 if gen_ok(i, "multi") and (i, "multi") not in build_err and (i, "app") not in build_err:
                     fails = sorted({k[3] for k in runs if k[0] == i and k[1] == "app"})
                     for f in fails:
